@@ -33,6 +33,9 @@ impl<T: Send + 'static> Drop for Guard<T> {
         // If the future is still present, spawn it to ensure it completes.
 
         if let Some(future) = self.future.take() {
+            #[cfg(feature = "verif")]
+            qbice_storage::verif::event("guard_detached", 0, 0);
+
             tokio::spawn(future);
         }
     }
